@@ -177,6 +177,8 @@ def round_trip(typ, axis_kinds, dtype, lazy, zipped, metadata, rng, scratch):
         obj.to_zarr(path, overwrite=True)
         back = abtem.from_zarr(path)
         ev["after"] = project(back, it)
+        if project(obj, it) != ev["before"]:
+            ev["after"] = dict(ev["after"], type=ev["after"]["type"] + " (the saved object itself was changed by saving)")
         a0 = np.asarray(obj.compute().array) if lazy else np.asarray(obj.array)
         a1 = np.asarray(back.compute().array)
         ev["array_equal"] = bool(a0.shape == a1.shape and np.array_equal(a0, a1))
